@@ -1,6 +1,109 @@
-// hooks for samplerz (included into /repo/falcon-rust/src/samplerz.rs as `mod verif` under
-// --cfg falcon_rust_verif).
+// hooks for samplerz (included into /repo/falcon-rust/src/samplerz.rs as `mod verif`).
+// Unit U-SAMP: base_sampler (complete), ber_exp with approx_exp replaced by its contract.
 include!(concat!(env!("FALCON_RUST_VERIF_DIR"), "/hooks/common.rs"));
 
+/// Reverse cumulative distribution table of the Falcon specification (Table 3.1, 72-bit
+/// precision), typed from the specification, not copied from the code under test.
+const RCDT_SPEC: [u128; 18] = [
+    3024686241123004913666,
+    1564742784480091954050,
+    636254429462080897535,
+    199560484645026482916,
+    47667343854657281903,
+    8595902006365044063,
+    1163297957344668388,
+    117656387352093658,
+    8867391802663976,
+    496969357462633,
+    20680885154299,
+    638331848991,
+    14602316184,
+    247426747,
+    3104126,
+    28824,
+    198,
+    1,
+];
+
+/// Contract of approx_exp used by ber_exp's harness (assumed here; the integer recurrence is
+/// discharged by Verus unit U-APPROX): for r in [0, ln 2) and ccs in [sigma_min/sigma_max, 1]
+/// the result is an integer in [1, 2^63].  The harness chooses the value (any in that range) and
+/// the stub returns it, so the harness can state BerExp's result in terms of it.
+pub(crate) static mut STUB_APPROX_EXP: u64 = 0;
+pub(crate) fn approx_exp_contract_stub(_x: f64, _ccs: f64) -> u64 {
+    unsafe { STUB_APPROX_EXP }
+}
+
+/// BerExp of the specification on already-drawn bytes: Some(result) if decided within `k` bytes
+fn spec_ber_exp_bytes(z: u64, bytes: &[u8]) -> Option<bool> {
+    let mut idx = 0;
+    let mut i: i32 = 64;
+    loop {
+        i -= 8;
+        if idx >= bytes.len() {
+            return None; // the specification would draw another byte
+        }
+        let w = (bytes[idx] as i32) - (((z >> i) & 0xff) as i32);
+        idx += 1;
+        if !(w == 0 && i > 0) {
+            return Some(w < 0);
+        }
+    }
+}
+
 harnesses! {
+    /// C09: base_sampler(u) == #{ i : u < RCDT[i] } for every 72-bit u
+    #[kani::unwind(20)]
+    fn base_sampler_contract(d) {
+        let bytes: [u8; 9] = d.array();
+        let mut u: u128 = 0;
+        let mut k = 0;
+        while k < 9 {
+            u = (u << 8) | bytes[k] as u128;
+            k += 1;
+        }
+        let mut expect = 0i16;
+        let mut i = 0;
+        while i < 18 {
+            if u < RCDT_SPEC[i] {
+                expect += 1;
+            }
+            i += 1;
+        }
+        let r = base_sampler(bytes);
+        assert!(r == expect, "C09.base: base_sampler(u) == #{i : u < RCDT[i]}");
+        assert!(0 <= r && r <= 18, "C09.base.range");
+        vcover!(r == 18, "reach: z0 = 18");
+        vcover!(r == 0, "reach: z0 = 0");
+        vcover!(r == 7, "reach: z0 = 7");
+    }
+
+    /// C09: ber_exp is total and equals BerExp whenever the supplied 7 bytes decide the
+    /// comparison; approx_exp is replaced by its contract (any value in [1, 2^63]).
+    #[kani::unwind(10)]
+    #[kani::stub(approx_exp, verif::approx_exp_contract_stub)]
+    fn ber_exp_contract(d) {
+        let x = d.f64();
+        let ccs = d.f64();
+        // domain sampler_z passes: x >= 0 finite and not huge, ccs in (0, 1]
+        vassume!(x >= 0.0 && x <= 1.0e6);
+        vassume!(ccs > 0.5 && ccs <= 1.0);
+        let a = d.u64();
+        vassume!(a >= 1 && a <= (1u64 << 63));
+        unsafe { STUB_APPROX_EXP = a; }
+        let bytes: [u8; 7] = d.array();
+        // BerExp of the specification: s = floor(x / ln 2) capped at 63, z = (2a - 1) >> s
+        let s = f64::floor(x / std::f64::consts::LN_2);
+        let sh = if s >= 63.0 { 63u32 } else { s as u32 };
+        let z = ((((a as u128) << 1) - 1) >> sh) as u64;
+        let spec = spec_ber_exp_bytes(z, &bytes);
+        let r = ber_exp(x, ccs, bytes);
+        if let Some(expect) = spec {
+            assert!(r == expect, "C09.ber_exp: equals BerExp when the supplied bytes decide");
+        }
+        vcover!(x > 44.0, "reach: s = 63 saturates");
+        vcover!(x == 0.0, "reach: x = 0");
+        vcover!(spec == Some(true), "reach: accept");
+        vcover!(spec == Some(false), "reach: reject");
+    }
 }
